@@ -90,7 +90,7 @@ class GenModule:
 			pinned = shapes.pinned.get(key)
 			if pinned is None:
 				raise RuntimeError(f'anchor {key} is not pinned (run: run.py pin)')
-			pinned_atoms = [(k, bytes.fromhex(v) if False else v) for k, v in pinned['atoms']]
+			pinned_atoms = [(k, bytes.fromhex(v[4:]) if isinstance(v, str) and v.startswith('hex:') else v) for k, v in pinned['atoms']]
 			atoms = shapes.atoms(relpath, qualname)
 			use = None
 			if atoms is not None:
@@ -142,58 +142,43 @@ class GenModule:
 		return unrecognised
 
 
-def pin_modules(modules):
-	"""Maintenance: pins skeleton/atoms (and constant values) of every anchor of the modules from the current tree."""
+def pin_modules(modules, only=None):
+	"""Maintenance: pins skeleton/atoms (and constant values) of every anchor of the modules from the current tree;
+	one file harness/shapes/<module>.json per Gen module."""
+	import json
 	from .common import find_def
 	shapes = Shapes()
 	for module in modules:
-		shapes.pin([(r, q) for r, q, _ in module.anchors])
+		if only and module.name not in only:
+			continue
+		pinned = {}
+		for relpath, qualname, _ in module.anchors:
+			pinned[f'{relpath}::{qualname}'] = shapes.pin_entry(relpath, qualname)
 		for relpath, qualname, _ in module.constexprs:
 			node = find_def(shapes.tree(relpath), qualname)
-			shapes.pinned[f'{relpath}::{qualname}'] = {'skeleton': 'constexpr', 'atoms': [], 'value': const_eval(node.value)}
-	import json
-	shapes.PINNED.write_text(json.dumps(shapes.pinned, indent=1, sort_keys=True) + '\n', encoding='utf8')
+			pinned[f'{relpath}::{qualname}'] = {'skeleton': 'constexpr', 'atoms': [], 'value': const_eval(node.value)}
+		(Shapes.PINNED_DIR / f'{module.name}.json').write_text(json.dumps(pinned, indent=1, sort_keys=True) + '\n', encoding='utf8')
 
 
 # ---------------------------------------------------------------------------------------------------------------------
-# module descriptions
+# discovery: every harness/gens/<name>.py exports MODULES
 
-IDGEN = 'sdk/python/symbolchain/symbol/IdGenerator.py'
-META = 'sdk/python/symbolchain/symbol/Metadata.py'
-SYMNET = 'sdk/python/symbolchain/symbol/Network.py'
-
-IDS = (
-	GenModule('IdsOps')
-	.constexpr(IDGEN, 'NAMESPACE_FLAG', 'ns_flag')
-	.constexpr(SYMNET, 'Address.SIZE', 'address_size')
-	.anchor(IDGEN, 'generate_mosaic_id', {
-		0: ('mosaic_nonce_w', 'nat'), 1: ('mosaic_nonce_order', 'endian'), 2: ('mosaic_dig_lo', 'nat'), 3: ('mosaic_dig_hi', 'nat'),
-		4: ('mosaic_dig_order', 'endian'), 5: ('mosaic_test_op', 'op'), 6: ('mosaic_upd_op', 'op')})
-	.anchor(IDGEN, 'generate_namespace_id', {
-		1: ('ns_parent_w', 'nat'), 2: ('ns_parent_order', 'endian'), 4: ('ns_dig_lo', 'nat'), 5: ('ns_dig_hi', 'nat'),
-		6: ('ns_dig_order', 'endian'), 7: ('ns_set_op', 'op')})
-	.anchor(IDGEN, 'is_valid_namespace_name', {
-		1: ('alnum_a', 'char'), 2: ('alnum_op1', 'op'), 3: ('alnum_op2', 'op'), 4: ('alnum_z', 'char'),
-		5: ('alnum_0', 'char'), 6: ('alnum_op3', 'op'), 7: ('alnum_op4', 'op'), 8: ('alnum_9', 'char'),
-		13: ('name_extra_1', 'char'), 14: ('name_extra_2', 'char')})
-	.anchor(IDGEN, 'generate_namespace_path', {0: ('path_root_parent', 'Z'), 1: ('path_sep', 'char')})
-	.anchor(META, 'metadata_generate_key', {1: ('md_n', 'nat'), 2: ('md_idx', 'nat'), 3: ('md_op', 'op'), 4: ('md_mask', 'Z'), 5: ('md_order', 'endian')})
-	.anchor(META, 'metadata_update_value', {1: ('md_len_op', 'op'), 2: ('md_xor_op', 'op')})
-	.anchor(SYMNET, 'Address.to_namespace_id', {
-		1: ('alias_test_idx', 'nat'), 2: ('alias_test_op', 'op'), 3: ('alias_test_mask', 'Z'), 5: ('alias_lo', 'nat'), 6: ('alias_hi', 'nat'),
-		7: ('alias_order', 'endian')})
-	.anchor(SYMNET, 'Address.from_namespace_id', {
-		0: ('alias_inc_op', 'op'), 1: ('alias_inc', 'Z'), 3: ('alias_w', 'nat'), 4: ('alias_w_order', 'endian'), 6: ('alias_fill', 'Z'),
-		8: ('alias_fill_op', 'op'), 9: ('alias_used', 'Z')})
-)
-
-ALL_MODULES = [IDS]
+def all_modules():
+	import importlib
+	import pkgutil
+	from . import gens
+	modules = []
+	for info in sorted(pkgutil.iter_modules(gens.__path__), key=lambda i: i.name):
+		modules += importlib.import_module(f'{gens.__name__}.{info.name}').MODULES
+	return modules
 
 
 def regenerate(shapes=None):
 	"""Rewrites every Gen module; returns {module: [unrecognised anchors]} and the Shapes object."""
 	shapes = shapes or Shapes()
 	result = {}
-	for module in ALL_MODULES:
+	for module in all_modules():
 		result[module.name] = module.write(shapes)
+		if hasattr(module, 'extra'):
+			module.extra(shapes)
 	return result, shapes
